@@ -28,7 +28,16 @@ void node::BlockManager::PruneOneBlockFile(const int fileNumber)
     g_rec.calls++;
     m_blockfile_info.at(fileNumber) = CBlockFileInfo{};
 }
+#ifdef SETSTUB
+static int g_ins[MAXF];
+template <> template <> std::pair<std::_Rb_tree_iterator<int>, bool> std::_Rb_tree<int, int, std::_Identity<int>, std::less<int>, std::allocator<int>>::_M_insert_unique<const int&>(const int& v)
+{
+    if (v >= 0 && v < MAXF) g_ins[v]++;
+    return {iterator(nullptr), true};
+}
+#endif
 static CBlockIndex g_base;
+static PhantomStore<ChainstateManager> cm_store; static PhantomStore<Chainstate> cs_store[2]; static PhantomStore<CChainParams> cp_store;
 CBlockIndex* node::BlockManager::LookupBlockIndex(const uint256&) { return &g_base; }
 
 struct CsIn { bool snapshot; unsigned au; bool target; bool target_utxo; };
@@ -36,7 +45,6 @@ struct CsIn { bool snapshot; unsigned au; bool target; bool target_utxo; };
 template <int NF, int NCS, int WHICH, int MODE>
 static void run()
 {
-    static PhantomStore<ChainstateManager> cm_store; static PhantomStore<Chainstate> cs_store[2]; static PhantomStore<CChainParams> cp_store;
     ChainstateManager& cm = cm_store.obj(); node::BlockManager& bm = cm.m_blockman; CChainParams& cp = cp_store.obj();
     memset(&g_rec, 0, sizeof(g_rec));
 
@@ -56,7 +64,7 @@ static void run()
     for (int i = 0; i < NCS; i++) {
         Chainstate& c = cs_store[i].obj();
         new (&c.m_chain) CChain();
-        void** slot = ref_slot_after(c.m_last_script_check_reason_logged); slot[0] = &bm; slot[1] = &cm;
+        void** slot = ref_slot_after(c, c.m_last_script_check_reason_logged); slot[0] = &bm; slot[1] = &cm;
         VASSERT(&c.m_chainman == &cm && &c.m_blockman == &bm, "phantom reference members wired");
         in[i].snapshot = nondet_bool(); in[i].au = (unsigned)nondet_range(0, 2); in[i].target = nondet_bool(); in[i].target_utxo = nondet_bool();
         uint256 hash; hash.data()[0] = 1;
@@ -128,8 +136,12 @@ static void run()
     VASSERT(ok_size, "only files that hold data (nSize > 0) are pruned");
     VASSERT(ok_range, "every pruned file lies inside [prune_start, prune_end]: no block of the last 288 below the tip, above the requested height, or at/below an unvalidated snapshot base");
     VASSERT(ok_info, "the file info is untouched until the file is pruned");
+#ifdef SETSTUB
+    for (int f = 0; f < NF; f++) VASSERT((g_ins[f] >= 1) == pruned[f], "set of files to unlink equals the pruned files");
+#else
     VASSERT((int)out.size() == n, "set of files to unlink has exactly the pruned files");
     for (int f = 0; f < NF; f++) VASSERT((out.count(f) == 1) == pruned[f], "set of files to unlink equals the pruned files");
+#endif
     for (int f = 0; f < NF; f++) if (!pruned[f]) {
         const CBlockFileInfo& x = bm.m_blockfile_info[f];
         VASSERT(x.nSize == T0[f].nSize && x.nUndoSize == T0[f].nUndoSize && x.nHeightFirst == T0[f].nHeightFirst && x.nHeightLast == T0[f].nHeightLast && x.nBlocks == T0[f].nBlocks, "files not pruned keep their info");
